@@ -22,6 +22,7 @@ type Task struct {
 
 	canceled  bool
 	executing bool
+	runAgain  bool // a submission came up while executing, run again afterwards
 	overtime  bool // locked by scheduleLock
 
 	// these are populated at task creation
@@ -290,6 +291,9 @@ func (t *Task) runWithLocking() {
 
 	// check if task is already executing
 	if t.executing {
+		// The submission that came up now is not lost: the task is queued
+		// again when the current execution has finished.
+		t.runAgain = true
 		t.lock.Unlock()
 		return
 	}
@@ -381,6 +385,8 @@ func (t *Task) executeWithLocking() {
 
 		// reset state
 		t.executing = false
+		runAgain := t.runAgain && t.isActive()
+		t.runAgain = false
 
 		// repeat?
 		if t.isActive() && t.repeat != 0 && t.executeAt.IsZero() {
@@ -396,6 +402,11 @@ func (t *Task) executeWithLocking() {
 		t.ctx, t.cancelCtx = context.WithCancel(t.module.Ctx)
 
 		t.lock.Unlock()
+
+		// A submission came up while the task was executing.
+		if runAgain {
+			t.Queue()
+		}
 	}()
 
 	// reset executeAt to detect if task set next execution itself
